@@ -452,6 +452,12 @@ class Prop:
     def coq_case(self, case, obs) -> str:
         raise NotImplementedError
 
+    def coq_cases(self, case, obs) -> list:
+        """Coq case terms of one harness case (default: the single term of coq_case, none if it is None =
+        implementation-only case without model counterpart)."""
+        term = self.coq_case(case, obs)
+        return [] if term is None else [term]
+
     def oracle(self, case, obs):
         """Property-text oracle on the implementation's observation: None or a description."""
         return None
@@ -512,6 +518,7 @@ def search_failing_input(prop: Prop, suspects, pool, known_sigs, budget=400):
 
 def run_check(prop: Prop, tier: str, seed: int, replay=None) -> int:
     pid = prop.ID
+    prop.tier = tier
     t0 = time.time()
     lines = []
     known, fixed = load_findings(pid)
@@ -571,17 +578,20 @@ def run_check(prop: Prop, tier: str, seed: int, replay=None) -> int:
             try:
                 terms, index = [], []
                 for k, (c, o) in enumerate(zip(cases, observations)):
-                    term = prop.coq_case(c, o)
-                    if term is not None:  # None = implementation-only case (no model counterpart)
+                    many = prop.coq_cases(c, o)
+                    for term in many:
                         terms.append(term)
                         index.append(k)
                 mism, errs = coq_mismatches(pid, prop.IMPORTS, prop.CASE_TYPE, prop.CHECK_FUN, terms)
-                mism = [index[i] for i in mism]
+                mism = sorted({index[i] for i in mism})
                 modelled = len(terms)
                 corr_errors += errs
             except Exception:  # pylint: disable=broad-except
                 corr_errors.append('case printer failed: ' + traceback.format_exc())
 
+    if os.environ.get('VERIF_DEBUG') and mism:
+        for i in mism[:10]:
+            print('MISMATCH', json.dumps(cases[i])[:400], json.dumps(observations[i], default=str)[:400])
     # 6. verdict
     rc = 0
     replay_doc = None
